@@ -53,7 +53,10 @@ txt += ["", f"{nd} of {len(rows)} are reported with a replayed witness (exit 1 a
         "`round(-rmin/scale)` and `base.amax` on the already absolute tensor in the optimizers; `torch.stack(...).reshape` for `torch.cat`",
         "in the Python unpack kernel and `reshape` for `view` in the integer GEMM wrapper. Run with `tools_mutant.sh` against C12, C01,",
         "C02, C03, C16, C04, C07: every check exits 0 with no VIOLATION line (the first of them exposed the C12 tolerance false alarm",
-        "described in section 13, which was corrected).", ""]
+        "described in section 13, which was corrected). The third round added 32 independently written rewrites (two per property,",
+        "`refactors/r3_*.diff` with their equivalence scripts and `r3_verification.json`); `refactors/targets.json` names, for every",
+        "rewrite, the checks whose anchored code it touches and `tools_refactor_matrix.sh` runs them all: the last complete run is",
+        "`refactors/matrix_quick.log` (every line `exit=0 violations=0`).", ""]
 txt += open(os.path.join(ROOT, "seeded", "ROUND2.md")).read().rstrip().split("\n") + ["",
         "| seeded change (round 2) | what it does | needs, to manifest | first pass | after strengthening (quick tier) |", "|---|---|---|---|---|"]
 for r in rows2:
